@@ -156,12 +156,13 @@ func c36Request(k c36ReqKind, prog []int) []byte {
 
 // c36Resp is what a client observed.
 type c36Resp struct {
-	Status  int // 0: no final response arrived
-	Interim []int
-	H       map[string][]string // only c36Names
-	Body    []byte
-	BodyErr string
-	Err     string
+	Status   int // 0: no final response arrived
+	Interim  []int
+	H        map[string][]string // only c36Names
+	Body     []byte
+	BodyErr  string
+	Err      string
+	TimedOut bool // the harness watchdog fired (never part of a verdict)
 }
 
 // c36Listener is an in-memory listener over net.Pipe (standard library; synchronous, supports deadlines that
@@ -235,7 +236,10 @@ func (e *c36Env) close() {
 	e.done.Wait()
 }
 
-var c36WatchdogHit atomic.Value // string
+// c36WatchdogDumped makes the first watchdog hit dump all goroutine stacks to stderr (diagnosis of a stalled case).
+var c36WatchdogDumped atomic.Bool
+
+const c36WatchdogTimeout = 60 * time.Second
 
 // c36Failed is set before a tool error is raised so that the deferred End does not replace the tool-error result
 // and so that the remaining shards stop.
@@ -247,6 +251,27 @@ func c36ToolError(r *vrt.R, format string, a ...any) {
 }
 
 // c36RoundTrip writes req on a fresh connection and reads responses until the final (non-1xx) one is complete.
+// c36RoundTripRetry repeats a round trip whose watchdog fired (handler programs are stateless, so a repetition is
+// the same case). The watchdog is not an oracle: a case that stalls three times is a tool error; a case that completes
+// is judged on its complete response only.
+func c36RoundTripRetry(r *vrt.R, ln *c36Listener, req []byte, method, side string) c36Resp {
+	for attempt := 0; ; attempt++ {
+		res := c36RoundTrip(ln, req, method)
+		if !res.TimedOut {
+			return res
+		}
+		r.Add("a_watchdog_retries_"+side, 1)
+		if c36WatchdogDumped.CompareAndSwap(false, true) {
+			buf := make([]byte, 4<<20)
+			buf = buf[:runtime.Stack(buf, true)]
+			fmt.Fprintf(os.Stderr, "C36 watchdog (%s side) for %q: %s\n%s\n", side, req, res.Err+res.BodyErr, buf)
+		}
+		if attempt == 2 {
+			c36ToolError(r, "watchdog: the %s side did not complete a response within %v in 3 attempts for %q", side, c36WatchdogTimeout, req)
+		}
+	}
+}
+
 func c36RoundTrip(ln *c36Listener, req []byte, method string) c36Resp {
 	var res c36Resp
 	c, err := ln.Dial()
@@ -256,8 +281,11 @@ func c36RoundTrip(ln *c36Listener, req []byte, method string) c36Resp {
 	}
 	defer c.Close()
 	// Watchdog only (a hit is a tool error, never a verdict): every explored case completes in microseconds.
-	c.SetDeadline(time.Now().Add(60 * time.Second)) //nolint:errcheck
+	c.SetDeadline(time.Now().Add(c36WatchdogTimeout)) //nolint:errcheck
 	if _, err := c.Write(req); err != nil {
+		if ne, ok := err.(net.Error); ok && ne.Timeout() {
+			res.TimedOut = true
+		}
 		res.Err = "write: " + err.Error()
 		return res
 	}
@@ -267,7 +295,7 @@ func c36RoundTrip(ln *c36Listener, req []byte, method string) c36Resp {
 		resp, err := http.ReadResponse(br, hreq)
 		if err != nil {
 			if ne, ok := err.(net.Error); ok && ne.Timeout() {
-				c36WatchdogHit.Store("timeout waiting for a response to " + strconv.Quote(string(req)))
+				res.TimedOut = true
 			}
 			res.Err = err.Error()
 			return res
@@ -287,7 +315,7 @@ func c36RoundTrip(ln *c36Listener, req []byte, method string) c36Resp {
 		res.Body = body
 		if err != nil {
 			if ne, ok := err.(net.Error); ok && ne.Timeout() {
-				c36WatchdogHit.Store("timeout reading the body of the response to " + strconv.Quote(string(req)))
+				res.TimedOut = true
 			}
 			res.BodyErr = err.Error()
 		}
@@ -457,8 +485,8 @@ func (c *c36Counters) flush(r *vrt.R) {
 // c36CheckA runs one (program, request kind) case on both servers and evaluates the oracle.
 func c36CheckA(r *vrt.R, e *c36Env, prog []int, k c36ReqKind, cnt *c36Counters) {
 	req := c36Request(k, prog)
-	want := c36RoundTrip(e.hln, req, k.Method)
-	got := c36RoundTrip(e.fln, req, k.Method)
+	want := c36RoundTripRetry(r, e.hln, req, k.Method, "nethttp")
+	got := c36RoundTripRetry(r, e.fln, req, k.Method, "adaptor")
 	m := c36RunModel(prog, k.Method)
 
 	art := func() c36Artefact {
@@ -686,12 +714,12 @@ func c36BuildReqB(slots []c36Slot, idx []int) []byte {
 
 type c36Parsed struct {
 	Method, URL, Path, RawPath, RawQuery, Scheme, URLHost string
-	Proto                                                string
-	Major, Minor                                         int
-	Host                                                 string
-	Header                                               map[string][]string
-	Body                                                 []byte
-	BodyErr                                              string
+	Proto                                                 string
+	Major, Minor                                          int
+	Host                                                  string
+	Header                                                map[string][]string
+	Body                                                  []byte
+	BodyErr                                               string
 }
 
 func c36Snapshot(hr *http.Request) c36Parsed {
@@ -1054,7 +1082,4 @@ func TestVerif_C36(t *testing.T) {
 		e.close()
 	}
 	r.Set("a_goroutines_after_run", runtime.NumGoroutine()) // informational: handler goroutines must not pile up
-	if w := c36WatchdogHit.Load(); w != nil {
-		c36ToolError(r, "watchdog: %v", w)
-	}
 }
